@@ -1421,7 +1421,8 @@ func checkLogsGrouping(c *Ctx, rule string) {
 	fn := w.Fn("jrpc2", "(*Client).logs")
 	var group *ssa.MapUpdate
 	okKey := false
-	allInstrs(fn, func(in ssa.Instruction) {
+	reg := NewRegion(fn) // the grouping and the attach step may each live in a helper
+	reg.AllInstrs(func(in ssa.Instruction) {
 		mu, ok := in.(*ssa.MapUpdate)
 		if !ok {
 			return
@@ -1498,7 +1499,6 @@ func checkLogsGrouping(c *Ctx, rule string) {
 	}
 	// consumption: range over that map; block = bm[k.a]; tx = b.Tx(k.b); Add(logs[j].Log)
 	okUse := false
-	reg := NewRegion(fn) // the attach step may live in a helper
 	for _, ci := range reg.Calls() {
 		call, ok := ci.(*ssa.Call)
 		if !ok {
@@ -1547,7 +1547,19 @@ func checkLogsGrouping(c *Ctx, rule string) {
 				return false
 			}
 			rg, ok := nx.Iter.(*ssa.Range)
-			return ok && sameVar(rg.X, group.Map)
+			if !ok {
+				return false
+			}
+			if sameVar(rg.X, group.Map) {
+				return true
+			}
+			// the map handed back by the grouping helper
+			for _, lv := range reg.Leaves(rg.X) {
+				if lv == group.Map || sameVar(lv, group.Map) {
+					return true
+				}
+			}
+			return false
 		}
 		keyOK := fromRange(ra, 1)
 		logRoot, _ := fieldChain(call.Call.Args[1])
